@@ -13,7 +13,7 @@ def NOT_REPRODUCED(msg=''):
     print('not reproduced', msg); sys.exit(0)
 
 
-p = Path(CubicBezier((-40-40j), (-40-40j), (-40+0j), 1j), CubicBezier(1j, 1j, (-40+0j), 2j), Line((-40+1j), (-40-40j)))
+p = Path(CubicBezier(0j, 0j, 0j, (1+0j)), QuadraticBezier(0j, 0j, 0j), QuadraticBezier(0j, (-7.450580596923828e-09+0j), 0j))
 opts = dict(useSandT=True, use_closed_attrib=False, rel=False)
 d = p.d(**opts)
 try:
